@@ -244,8 +244,10 @@ def clause_only_after_rollback(prog, rep, rule):
             cf = prog.fns.get(q)
             if not cf or cf.is_test_like():
                 continue
-            sites += [(cf, x) for x in cf.live_calls() if any(t.path == f.path for t in prog.call_targets(x))]
-        return bool(sites) and all(guarded(cf, x.bb, depth + 1) for cf, x in sites)
+            sites += [(cf, x.bb) for x in cf.live_calls() if any(t.path == f.path for t in prog.call_targets(x))]
+            # a closure body (`ids.iter().filter(|id| storage.mark_..(id).is_err())`) runs where it is created / handed to the adaptor
+            sites += [(cf, b2) for b2, st in cf.stmts() if st.get("k") == "closure" and st.get("closure") == f.path]
+        return bool(sites) and all(guarded(cf, b2, depth + (0 if f.is_closure() else 1)) for cf, b2 in sites)
     for nm in ("invalidate_messages_after_epoch", "invalidate_processed_messages_after_epoch", "mark_processed_message_retryable"):
         for c in prog.all_calls(lambda x: K.is_storage_trait_call(x, nm), crates=("mdk_core",)):
             rep.check(guarded(c.fn, c.bb), rule, "%s/only-after-rollback" % nm,
